@@ -28,31 +28,44 @@ Print Assumptions C09_files_decode.
 
 (* "the image object stays usable afterwards".  FULL STATEMENT (after every successful save the
    image still denotes the value it had) is false of the faithful model: C09_usable_refuted
-   (finding S-C09c).  Proved: it holds unless the image is a proxy of the target itself and the
-   dtype written differs from the dtype the proxy copied when it was loaded. *)
-Theorem C09_usable_partial : forall g w s t v d a im,
-  g_fix g = true -> snd (step g w (Save s t)) = OSaved t v d a -> img_at w s = Some im ->
-  ~ stale_after g im t d ->
-  img_at (fst (step g w (Save s t))) s = Some im
-  /\ denote g (w_fs (fst (step g w (Save s t)))) im = RVal v.
+   (finding S-C09c).  Proved (do_save is the step of Save / SaveU8): it holds unless the image is a
+   proxy of the target file itself and the dtype written differs from the dtype the proxy copied when
+   it was loaded, or - integer storage - the re-computed scale factors differ from the proxy's.
+   (MGH clipping data of both signs to uint8 is excluded: the file itself does not hold the data.) *)
+Theorem C09_usable_partial : forall g w s t hd v d a k im0,
+  g_fix g = true -> g_reshape_ok g = true ->
+  snd (do_save g w s t hd) = OSaved t v d a k -> img_at w s = Some im0 ->
+  ~ (g_mixed g = true /\ d = U1 /\ pi_fmt (pinfo_of g t) = Mgh) ->
+  (forall c, file_at (fst (do_save g w s t hd)) (fid g t) = Some c -> ~ stale_after g im0 t c) ->
+  img_at (fst (do_save g w s t hd)) s = Some im0
+  /\ denote g (w_fs (fst (do_save g w s t hd))) im0 = RVal v.
 Proof. exact usable_after_save. Qed.
 Print Assumptions C09_usable_partial.
 
-Definition w_one (d : dtype) : world := mkW [Some (mkK (Some 0%nat) d 0%nat)] [None; None] false.
-Definition g_one (n : Z) (fx : bool) : cfg := platform_cfg n [mkP Nii false] [0%nat] fx.
+Definition w_one (d : dtype) : world := mkW [Some (mkK (Some 0%nat) d 0%nat 0%nat)] [None; None] false.
+(* an int16 file with preset scale factors (identity 1); the writers compute identity 2 for value 0 *)
+Definition w_scaled : world := mkW [Some (mkK (Some 0%nat) I2 0%nat 1%nat); None] [None; None] false.
+Definition sc_tab : list (fmt * dtype * nat * nat) := [(Nii, I2, 0%nat, 2%nat); (Nii, U1, 0%nat, 3%nat); (Spm, I2, 0%nat, 4%nat)].
+Definition g_one (n : Z) (fx : bool) : cfg := platform_cfg n [mkP Nii false] [0%nat] fx sc_tab false false.
 
 (* S-C09c: load a.nii, set_data_dtype(other width), save onto a.nii: the file is right, the image
    is not - narrower: its reads are refused (OSError); wider: they silently return garbage *)
 Theorem C09_usable_refuted :
   (let w := fst (run (g_one 24 true) (w_one F8) [Load 0 0 true; SetDtype 0; Save 0 0]) in
-   snd (run (g_one 24 true) (w_one F8) [Load 0 0 true; SetDtype 0; Save 0 0]) = [ODone; ODone; OSaved 0 (Some 0%nat) F4 0]
-   /\ file_at w 0 = Some (mkK (Some 0%nat) F4 0%nat)
+   snd (run (g_one 24 true) (w_one F8) [Load 0 0 true; SetDtype 0; Save 0 0]) = [ODone; ODone; OSaved 0 (Some 0%nat) F4 0 0]
+   /\ file_at w 0 = Some (mkK (Some 0%nat) F4 0%nat 0%nat)
    /\ exists im, img_at w 0 = Some im /\ denote (g_one 24 true) (w_fs w) im = RRefused)
   /\
   (let w := fst (run (g_one 24 true) (w_one F4) [Load 0 0 true; SetDtype 0; Save 0 0]) in
-   snd (run (g_one 24 true) (w_one F4) [Load 0 0 true; SetDtype 0; Save 0 0]) = [ODone; ODone; OSaved 0 (Some 0%nat) F8 0]
+   snd (run (g_one 24 true) (w_one F4) [Load 0 0 true; SetDtype 0; Save 0 0]) = [ODone; ODone; OSaved 0 (Some 0%nat) F8 0 0]
+   /\ exists im, img_at w 0 = Some im /\ denote (g_one 24 true) (w_fs w) im = RVal None)
+  /\
+  (* no dtype change at all: load a scaled int16 file and save it onto itself - the writer re-scales, the
+     image keeps the old factors and silently decodes garbage *)
+  (let w := fst (run (g_one 24 true) w_scaled [Load 0 0 true; Save 0 0]) in
+   snd (run (g_one 24 true) w_scaled [Load 0 0 true; Save 0 0]) = [ODone; OSaved 0 (Some 0%nat) I2 0 2]
    /\ exists im, img_at w 0 = Some im /\ denote (g_one 24 true) (w_fs w) im = RVal None).
-Proof. split; vm_compute; repeat split; eexists; split; reflexivity. Qed.
+Proof. split; [|split]; vm_compute; repeat split; eexists; split; reflexivity. Qed.
 Print Assumptions C09_usable_refuted.
 
 (* "no step of the history crashes".  FULL STATEMENT is false of the faithful model:
@@ -73,12 +86,12 @@ Print Assumptions C09_initial_worlds_backed.
 Theorem C09_no_crash_refuted :
   cfg_wf (g_one 2048 true) /\ no_caches (w_one F8)
   /\ snd (run (g_one 2048 true) (w_one F8) [Load 0 0 true; Fdata 0; Load 1 0 true; SetDtype 1; Save 1 0; Fdata 0])
-     = [ODone; OVal (Some 0%nat); ODone; ODone; OSaved 0 (Some 0%nat) F4 0; OCrash]
+     = [ODone; OVal (Some 0%nat); ODone; ODone; OSaved 0 (Some 0%nat) F4 0 0; OCrash]
   /\ snd (run (g_one 2048 true) (w_one F8) [Load 0 0 true; Fdata 0; SetDtype 0; Save 0 0; Fdata 0])
-     = [ODone; OVal (Some 0%nat); ODone; OSaved 0 (Some 0%nat) F4 0; OCrash]
+     = [ODone; OVal (Some 0%nat); ODone; OSaved 0 (Some 0%nat) F4 0 0; OCrash]
   /\ (* inside one page the same histories end in silently different values instead *)
      snd (run (g_one 24 true) (w_one F8) [Load 0 0 true; Fdata 0; SetDtype 0; Save 0 0; Fdata 0])
-     = [ODone; OVal (Some 0%nat); ODone; OSaved 0 (Some 0%nat) F4 0; OVal None].
+     = [ODone; OVal (Some 0%nat); ODone; OSaved 0 (Some 0%nat) F4 0 0; OVal None].
 Proof.
   split; [apply platform_wf|]. split; [|vm_compute; repeat split].
   intros s im H. destruct s as [|[|s]]; vm_compute in H; try discriminate; destruct s; discriminate.
@@ -89,8 +102,8 @@ Print Assumptions C09_no_crash_refuted.
    page) or writes garbage (data inside it) - finding S-C09a, repaired by 0c06baeb *)
 Theorem C09_unfixed_refuted :
   snd (run (g_one 2048 false) (w_one F8) [Load 0 0 true; Save 0 0]) = [ODone; OCrash]
-  /\ snd (run (g_one 24 false) (w_one F8) [Load 0 0 true; Save 0 0]) = [ODone; OSaved 0 None F8 0]
-  /\ snd (run (g_one 2048 true) (w_one F8) [Load 0 0 true; Save 0 0]) = [ODone; OSaved 0 (Some 0%nat) F8 0].
+  /\ snd (run (g_one 24 false) (w_one F8) [Load 0 0 true; Save 0 0]) = [ODone; OSaved 0 None F8 0 0]
+  /\ snd (run (g_one 2048 true) (w_one F8) [Load 0 0 true; Save 0 0]) = [ODone; OSaved 0 (Some 0%nat) F8 0 0].
 Proof. vm_compute. repeat split. Qed.
 Print Assumptions C09_unfixed_refuted.
 
@@ -98,22 +111,40 @@ Print Assumptions C09_unfixed_refuted.
    and saving onto the other is saving onto the mapped file itself - safe with the fix (the
    comparison is by file identity), S-C09a again without it *)
 Theorem C09_other_name_same_file :
-  let g fx := platform_cfg 2048 [mkP Nii false; mkP Nii false] [0%nat; 0%nat] fx in
+  let g fx := platform_cfg 2048 [mkP Nii false; mkP Nii false] [0%nat; 0%nat] fx [] false false in
   snd (run (g true) (w_one F8) [Load 0 0 true; Save 0 1; Fdata 0; Load 1 1 true; Save 1 0; Fdata 1])
-  = [ODone; OSaved 1 (Some 0%nat) F8 0; OVal (Some 0%nat); ODone; OSaved 0 (Some 0%nat) F8 0; OVal (Some 0%nat)]
+  = [ODone; OSaved 1 (Some 0%nat) F8 0 0; OVal (Some 0%nat); ODone; OSaved 0 (Some 0%nat) F8 0 0; OVal (Some 0%nat)]
   /\ snd (run (g false) (w_one F8) [Load 0 0 true; Save 0 1]) = [ODone; OCrash].
 Proof. vm_compute. repeat split. Qed.
 Print Assumptions C09_other_name_same_file.
 
+(* a save that the array writer refuses (uint8 storage of data of both signs in a class without intercept)
+   and a save that fails with ENOSPC change nothing at all; MGHImage's padding of images with fewer than
+   three axes goes through ArrayProxy.reshape, which must keep the scale factors *)
+Theorem C09_refusals_and_reshape :
+  (let g := platform_cfg 24 [mkP Spm false; mkP Spm false] [0%nat; 1%nat] true sc_tab true false in
+   let w := mkW [Some (mkK (Some 0%nat) F8 0%nat 0%nat); Some (mkK (Some 1%nat) F8 1%nat 0%nat)] [None; None] false in
+   run g w [Load 0 0 true; SaveU8 0 0; SaveU8 0 1; SaveFull 0]
+   = (fst (run g w [Load 0 0 true]), [ODone; ORefused EWriter; ORefused EWriter; ORefused ENoSpace]))
+  /\
+  (let g ok := mkCfg 24 platform_page [mkP Nii false; mkP Mgh false] [0%nat; 1%nat] platform_off platform_foot
+                     platform_conv true sc_tab platform_nointer false true ok in
+   snd (run (g true) w_scaled [Load 0 0 true; Save 0 1]) = [ODone; OSaved 1 (Some 0%nat) F4 0 0]
+   /\ snd (run (g false) w_scaled [Load 0 0 true; Save 0 1]) = [ODone; OSaved 1 None F4 0 0]).
+Proof. vm_compute. repeat split. Qed.
+Print Assumptions C09_refusals_and_reshape.
+
 (* non-vacuity: a hazard-free history with loads, cached maps, saves onto the own file, onto the
    other file and back, over two NIfTI files *)
 Example C09_nonvacuous :
-  let g := platform_cfg 2048 [mkP Nii false; mkP Nii false] [0%nat; 1%nat] true in
-  let w := mkW [Some (mkK (Some 0%nat) F8 0%nat); Some (mkK (Some 1%nat) F8 1%nat)] [None; None] false in
-  let ops := [Load 0 0 true; Fdata 0; Save 0 0; Save 0 1; Load 1 1 true; Fdata 1; Save 1 0; Fdata 0; ToBytes 1] in
+  let g := platform_cfg 2048 [mkP Nii false; mkP Nii false] [0%nat; 1%nat] true sc_tab false false in
+  let w := mkW [Some (mkK (Some 0%nat) F8 0%nat 0%nat); Some (mkK (Some 1%nat) F8 1%nat 0%nat)] [None; None] false in
+  let ops := [Load 0 0 true; Fdata 0; Save 0 0; Save 0 1; Load 1 1 true; Fdata 1; Save 1 0; Fdata 0; ToBytes 1;
+              Uncache 1; SetInt 1; SaveFull 1; Save 1 1; Load 0 1 false; Fdata 0] in
   cfg_wf g /\ backed g w /\ no_hazard g w ops
-  /\ snd (run g w ops) = [ODone; OVal (Some 0%nat); OSaved 0 (Some 0%nat) F8 0; OSaved 1 (Some 0%nat) F8 0; ODone;
-                          OVal (Some 0%nat); OSaved 0 (Some 0%nat) F8 0; OVal (Some 0%nat); OBytes (Some 0%nat) F8 0].
+  /\ snd (run g w ops) = [ODone; OVal (Some 0%nat); OSaved 0 (Some 0%nat) F8 0 0; OSaved 1 (Some 0%nat) F8 0 0; ODone;
+                          OVal (Some 0%nat); OSaved 0 (Some 0%nat) F8 0 0; OVal (Some 0%nat); OBytes (Some 0%nat) F8 0;
+                          ODone; ODone; ORefused ENoSpace; OSaved 1 (Some 0%nat) I2 0 2; ODone; OVal (Some 0%nat)].
 Proof.
   split; [apply platform_wf|]. split; [|vm_compute; repeat split].
   apply no_caches_backed. intros s im H. destruct s as [|[|s]]; vm_compute in H; try discriminate; destruct s; discriminate.
